@@ -18,6 +18,18 @@
 //   (exactly what user code writes) and stichwort's public Parameter::create(name, value) otherwise.
 //   The set is built with the comma operators, left to right.
 //
+// Structural probe of the container (wave 2), one per line:
+//   P <na> { <kwid> <T> <value> }*na <nd> { <kwid> <T> <value> }*nd
+//     drives stichwort::ParametersSet DIRECTLY (no tapkee::embed): A = the comma expression of the first
+//     list written out literally for its arity ((ParametersSet)a, (a, b), (a, b, c), ... up to five, longer ones
+//     chained), D = a second set (the `defaults` of this probe).  Reported as  key=[value];...  after the bar:
+//       dup     1 iff A.check() throws multiple_parameter_error
+//       ct      ok | wrong_type : A.checkTypes(D)
+//       m:<name> <T>:<repr>   every entry of A (visit), T = the C++ type found by hasSameTypeAs against one
+//                             reference parameter per type, repr = method id for M, Parameter::repr() otherwise
+//       g:<name> <T>:<repr>   every entry of A after A.merge(D)
+//       l:<kwid> found | missed   A[name] for every keyword of either list and for one name nobody set
+//
 // Every request runs in a forked child (exceptions cannot leave OpenMP regions, and a mutated
 // library may crash or hang): the first kernel()/distance() call ends the child with outcome
 // stop:kernel / stop:distance — "validation accepted, evaluation starts".  Output, one line per request:
@@ -266,6 +278,133 @@ static bool parse_parameter(std::istringstream& in, Parameter& out)
     return false;
 }
 
+// ------------------------------------------------------------------ the comma expression, literally
+static ParametersSet build_comma(const std::vector<Parameter>& ps_list)
+{
+    const size_t n = ps_list.size();
+    if (n == 0) return ParametersSet();
+    Parameter a = ps_list[0];
+    if (n == 1)
+    {
+        ParametersSet s = a;                    // Parameter::operator ParametersSet()
+        return s;
+    }
+    Parameter b = ps_list[1];
+    if (n == 2) return (a, b);                  // Parameter::operator,
+    Parameter c = ps_list[2];
+    if (n == 3) return (a, b, c);               // ... then ParametersSet::operator,
+    Parameter d = ps_list[3];
+    if (n == 4) return (a, b, c, d);
+    Parameter e = ps_list[4];
+    if (n == 5) return (a, b, c, d, e);
+    ParametersSet ps = (a, b, c, d, e);
+    for (size_t i = 5; i < n; i++) ps = (ps, ps_list[i]);
+    return ps;
+}
+
+// ------------------------------------------------------------------ structural probe of the container
+static std::string type_and_repr(const Parameter& p)
+{
+    static const Parameter refs[] = {
+        Parameter::create("r", (IndexType)0), Parameter::create("r", (ScalarType)0), Parameter::create("r", (bool)false),
+        Parameter::create("r", PassThru), Parameter::create("r", Brute), Parameter::create("r", Dense),
+        Parameter::create("r", HomogeneousCPUStrategy), Parameter::create("r", (void (*)(double))NULL),
+        Parameter::create("r", (bool (*)())NULL), Parameter::create("r", std::string("")),
+        Parameter::create("r", (float)0), Parameter::create("r", (long)0), Parameter::create("r", (unsigned)0),
+        Parameter::create("r", (char)0), Parameter::create("r", (const char*)""), Parameter::create("r", (short)0),
+        Parameter::create("r", (long double)0)};
+    static const char* tags[] = {"I", "S", "B", "M", "N", "E", "C", "P", "X", "O0", "O1", "O2", "O3", "O4", "O5", "O6", "O7"};
+    std::string tag = "?";
+    int hits = 0;
+    for (size_t i = 0; i < sizeof(refs) / sizeof(refs[0]); i++)
+        if (p.hasSameTypeAs(refs[i])) { tag = tags[i]; hits++; }
+    if (hits != 1) tag = "?";
+    if (tag == "M")
+    {
+        Parameter q = p;
+        for (int i = 0; i < 20; i++)
+            if (q.is(*method_by_id(i))) return tag + ":" + std::to_string(i);
+        return tag + ":?";
+    }
+    return tag + ":" + p.repr();
+}
+
+static std::string name_of_kwid(int kwid)
+{
+    std::string nm;
+    if (kwid >= 100)
+    {
+        std::ostringstream os;
+        os << "c14 unknown keyword " << kwid;
+        return os.str();
+    }
+    with_keyword(kwid, [&](const auto& kw) { nm = kw.name; });
+    return nm;
+}
+
+static void probe_main(std::istringstream& in)
+{
+    std::vector<Parameter> la, ld;
+    std::vector<int> ids;
+    for (int pass = 0; pass < 2; pass++)
+    {
+        int n;
+        if (!(in >> n) || n < 0 || n > 64) emit_and_exit("other:bad-request-line");
+        for (int i = 0; i < n; i++)
+        {
+            std::streampos at = in.tellg();
+            int kwid;
+            if (!(in >> kwid)) emit_and_exit("other:bad-request-line");
+            in.seekg(at);
+            Parameter p;
+            if (!parse_parameter(in, p)) emit_and_exit("other:bad-request-line");
+            (pass == 0 ? la : ld).push_back(p);
+            ids.push_back(kwid);
+        }
+    }
+    ids.push_back(777);
+    alarm(8);
+    std::ostringstream os;
+    try
+    {
+        ParametersSet A = build_comma(la);
+        ParametersSet D;
+        for (size_t i = 0; i < ld.size(); i++) D.add(ld[i]);
+        bool dup = false;
+        try { A.check(); }
+        catch (const stichwort::multiple_parameter_error&) { dup = true; }
+        os << "dup=[" << (dup ? 1 : 0) << "];";
+        std::string ct = "ok";
+        try { A.checkTypes(D); }
+        catch (const stichwort::wrong_parameter_type_error&) { ct = "wrong_type"; }
+        os << "ct=[" << ct << "];";
+        A.visit([&](const Parameter& p) { os << "m:" << p.name() << "=[" << type_and_repr(p) << "];"; });
+        for (size_t i = 0; i < ids.size(); i++)
+        {
+            std::string r = "found";
+            try { Parameter p = A[name_of_kwid(ids[i])]; if (p.name() != name_of_kwid(ids[i])) r = "other"; }
+            catch (const stichwort::missed_parameter_error&) { r = "missed"; }
+            os << "l:" << ids[i] << "=[" << r << "];";
+        }
+        ParametersSet G = A;
+        G.merge(D);
+        G.visit([&](const Parameter& p) { os << "g:" << p.name() << "=[" << type_and_repr(p) << "];"; });
+        // the copy must not have touched A, and merging must not have touched the duplicate list
+        bool dup2 = false;
+        try { G.check(); }
+        catch (const stichwort::multiple_parameter_error&) { dup2 = true; }
+        os << "dupg=[" << (dup2 ? 1 : 0) << "];";
+    }
+    catch (const std::exception& ex)
+    {
+        emit_and_exit(std::string("other:") + typeid(ex).name());
+    }
+    g_echo = os.str();
+    for (auto& ch : g_echo)
+        if (ch == '\n' || ch == '|') ch = '_';
+    emit_and_exit("probe");
+}
+
 // ------------------------------------------------------------------ one request (in the child)
 template <class K, class D, class F> static void run_embed(const std::vector<int>& idx, const ParametersSet& ps)
 {
@@ -294,6 +433,11 @@ static void child_main(const std::string& line)
     std::istringstream in(line);
     std::string tag;
     int N, mask, stopf, nkw;
+    if (!line.empty() && line[0] == 'P')
+    {
+        in >> tag;
+        probe_main(in);
+    }
     if (!(in >> tag >> N >> mask >> stopf >> nkw) || tag != "R" || N < 0 || N > 4096 || nkw < 0)
         emit_and_exit("other:bad-request-line");
     g_stopf = stopf;
@@ -305,15 +449,7 @@ static void child_main(const std::string& line)
         ps_list.push_back(p);
     }
     // the comma expression (a, b, c, ...): Parameter::operator, then ParametersSet::operator,
-    ParametersSet ps;
-    if (ps_list.size() == 1)
-        ps = (ParametersSet)ps_list[0];
-    else if (ps_list.size() >= 2)
-    {
-        ps = (ps_list[0], ps_list[1]);
-        for (size_t i = 2; i < ps_list.size(); i++)
-            ps = (ps, ps_list[i]);
-    }
+    ParametersSet ps = build_comma(ps_list);
     std::vector<int> idx(N);
     for (int i = 0; i < N; i++) idx[i] = i;
 
@@ -349,7 +485,7 @@ int main()
     signal(SIGPIPE, SIG_IGN);
     while (std::getline(std::cin, line))
     {
-        if (line.empty() || line[0] != 'R') continue;
+        if (line.empty() || (line[0] != 'R' && line[0] != 'P')) continue;
         int fds[2];
         if (pipe(fds) != 0) { perror("pipe"); return 2; }
         fflush(stdout);
